@@ -1086,4 +1086,116 @@ mod vh_popen {
         mk::link_model();
         unsafe { fail_child(any_kinds(), kani::any()) }
     }
+
+    /// Two operations: a query, then a signalling call.  Once a query has seen
+    /// ECHILD (child reaped by someone else) no signal may be sent any more.
+    #[kani::proof]
+    fn h_life_pair() {
+        mk::link_model();
+        unsafe {
+            let mut l = any_life_state();
+            kani::assume(!l.finished);
+            let op1: u8 = kani::any();
+            kani::assume(op1 <= 2);
+            let op2: u8 = kani::any();
+            kani::assume(op2 >= 3 && op2 <= 5);
+            life_op(&mut l, op1);
+            kani::cover!(mp::ECHILD_SEEN, "COVER/foreign-reap-observed");
+            life_op(&mut l, op2);
+            std::mem::forget(l);
+        }
+    }
+
+    /// quick variant: poll() after a foreign reap, then terminate()
+    #[kani::proof]
+    fn h_life_pair_q() {
+        mk::link_model();
+        unsafe {
+            let mut l = any_life_state();
+            kani::assume(!l.finished);
+            life_op(&mut l, 0);
+            kani::cover!(mp::ECHILD_SEEN, "COVER/foreign-reap-observed");
+            life_op(&mut l, 4);
+            std::mem::forget(l);
+        }
+    }
+
+    /// C08, multi-threaded clause as a boundary invariant: at every system-call
+    /// boundary of the spawning thread (parent role) every open pipe end created
+    /// by the spawn is close-on-exec, so that a fork+exec issued by another thread
+    /// at that instant cannot inherit it.  Known finding: pipe() followed by fcntl().
+    #[kani::proof]
+    #[kani::stub(get_standard_stream, gss)]
+    #[kani::stub(crate::posix::fcntl, crate::mk::fcntl_model)]
+    fn h_spawn_boundary_kf() {
+        mk::link_model();
+        unsafe {
+            mk::reset();
+            pre_state(2);
+            let (cfg, r0, r1, r2) = make_streams([RK::Pipe, RK::Pipe, RK::None], false, true, mk::NPIPES);
+            mp::begin_spawn();
+            mp::BOUNDARY_CLOEXEC = true;
+            let config = PopenConfig { stdin: r0, stdout: r1, stderr: r2, ..Default::default() };
+            let res = Popen::create(&["/p"], config);
+            mp::BOUNDARY_CLOEXEC = false;
+            kani::cover!(res.is_ok(), "COVER/parent-ok");
+            std::mem::forget(res);
+            let _ = cfg;
+        }
+    }
+
+    /// The executable override decides the lookup, whatever argv[0] looks like:
+    /// executable in {"/x", "x"} x argv[0] in {"/p", "p"} with PATH = "d".
+    pub unsafe fn exe_override_case(exe_slash: bool, arg_slash: bool) {
+        {
+            child_role_plain();
+            mk::env::PATH_SET = true;
+            mk::env::PATH_VAL[0] = b'd';
+            mk::env::PATH_VAL[1] = 0;
+            mp::EXP_PATH_SET = true;
+            if exe_slash {
+                mp::EXP_PATH[0] = b'/';
+                mp::EXP_PATH[1] = b'x';
+                mp::EXP_PATH_LEN = 2;
+            } else {
+                mp::EXP_PATH[0] = b'd';
+                mp::EXP_PATH[1] = b'/';
+                mp::EXP_PATH[2] = b'x';
+                mp::EXP_PATH_LEN = 3;
+            }
+            mp::EXP_ARGV_SET = true;
+            mp::EXP_ARGC = 1;
+            if arg_slash {
+                mp::EXP_ARGV[0][0] = b'/';
+                mp::EXP_ARGV[0][1] = b'p';
+                mp::EXP_ARGV_LEN[0] = 2;
+            } else {
+                mp::EXP_ARGV[0][0] = b'p';
+                mp::EXP_ARGV_LEN[0] = 1;
+            }
+            let config = PopenConfig {
+                executable: Some(OsString::from(if exe_slash { "/x" } else { "x" })),
+                ..Default::default()
+            };
+            let res = Popen::create(&[if arg_slash { "/p" } else { "p" }], config);
+            vcheck!(C06, false, "C06/launch-proceeds: a valid request did not reach exec");
+            std::mem::forget(res);
+        }
+    }
+
+    macro_rules! exe_override_harness {
+        ($name:ident, $e:expr, $a:expr) => {
+            #[kani::proof]
+            #[kani::stub(get_standard_stream, gss)]
+            #[kani::stub(crate::posix::fcntl, crate::mk::fcntl_model)]
+            #[kani::stub(std::env::var_os, crate::posix::vh_posix::var_os_model)]
+            fn $name() {
+                mk::link_model();
+                unsafe { exe_override_case($e, $a) }
+            }
+        };
+    }
+    exe_override_harness!(h_exe_override_sb, true, false);
+    exe_override_harness!(h_exe_override_bs, false, true);
+    exe_override_harness!(h_exe_override_bb, false, false);
 }
